@@ -52,7 +52,7 @@ def _pos(sy, *names):
 # ----------------------------------------------------------------------------------
 # TA: continuous state + continuous choice + constraint + auxiliary function with parameter
 # ----------------------------------------------------------------------------------
-def TA(T=2, nw=5, nc=3, sym_k=False, sym_g=False, beta_sym=True, lower=False, int_init=False, borrow=False):
+def TA(T=2, nw=5, nc=3, sym_k=False, sym_g=False, beta_sym=True, lower=False, int_init=False, borrow=False, vec_aux=False):
     from lcm import Model
 
     def utility(c, w, inc, tc, tw, ti):
@@ -80,6 +80,14 @@ def TA(T=2, nw=5, nc=3, sym_k=False, sym_g=False, beta_sym=True, lower=False, in
         funcs["lo_constraint"] = lo_constraint
     if borrow:
         funcs["b_constraint"] = b_constraint
+    if vec_aux:
+        import jax.numpy as jnp
+
+        def coh(w, inc):
+            # NOT elementwise on arrays: correct only if it is evaluated row by row
+            return jnp.sum(jnp.array([w, inc]))
+
+        funcs["coh"] = coh
     model = Model(
         n_periods=T,
         functions=funcs,
@@ -99,6 +107,8 @@ def TA(T=2, nw=5, nc=3, sym_k=False, sym_g=False, beta_sym=True, lower=False, in
             p["lo_constraint"] = {"lo": mk.real("lo")}
         if borrow:
             p["b_constraint"] = {"g": mk.real("bmin")}
+        if vec_aux:
+            p["coh"] = {}
         return p
 
     def assume(sy):
@@ -118,7 +128,7 @@ def TA(T=2, nw=5, nc=3, sym_k=False, sym_g=False, beta_sym=True, lower=False, in
             return {"w": mk.int("w0", (n,))}  # a continuous state supplied as an INTEGER array
         return {"w": mk.real("w0", (n,))}
 
-    return Tmpl(f"TA[T={T},nw={nw},nc={nc},k={'sym' if sym_k else 0},g={'sym' if sym_g else '1/2'},lower={lower},int_init={int_init}{',borrow' if borrow else ''}]", model, params, assume, init)
+    return Tmpl(f"TA[T={T},nw={nw},nc={nc},k={'sym' if sym_k else 0},g={'sym' if sym_g else '1/2'},lower={lower},int_init={int_init}{',borrow' if borrow else ''}{',vec_aux' if vec_aux else ''}]", model, params, assume, init)
 
 
 # ----------------------------------------------------------------------------------
@@ -814,3 +824,47 @@ def TQ(T=2):
 
 
 REGISTRY["TQ"] = TQ
+
+
+# ----------------------------------------------------------------------------------
+# TR: TWO filters that disagree (one on state+choice, one on two choices): the admissible set is the
+# conjunction of both
+# ----------------------------------------------------------------------------------
+def TR(T=2):
+    import jax.numpy as jnp
+    from lcm import Model
+
+    def utility(lag, r, e, w, U, tw):
+        return U[lag, r, e] + tw * w
+
+    def next_lag(r):
+        return r
+
+    def next_w(w, e):
+        return w * 0.5 + e * 0.25
+
+    def a_filter(r, lag):
+        return jnp.logical_or(r == 1, lag == 0)
+
+    def b_filter(r, e):
+        return r + e <= 1
+
+    model = Model(
+        n_periods=T,
+        functions=dict(utility=utility, next_lag=next_lag, next_w=next_w, a_filter=a_filter, b_filter=b_filter),
+        choices=dict(r=dg(2), e=dg(2)),
+        states=dict(lag=dg(2), w=lin(0, 2, 3)),
+    )
+
+    def params(mk):
+        return {"beta": mk.real("beta"), "utility": {"U": mk.real("U", (2, 2, 2)), "tw": mk.real("tw")}, "next_lag": {}, "next_w": {}, "a_filter": {}, "b_filter": {}}
+
+    def init(mk, n):
+        import jax.numpy as jnp
+
+        return {"lag": jnp.arange(n) % 2, "w": mk.real("w0", (n,))}
+
+    return Tmpl(f"TR[T={T}]", model, params, lambda sy: [], init)
+
+
+REGISTRY["TR"] = TR
